@@ -232,11 +232,13 @@ class C10(Prop):
             ptus = pulsetime_us(pt)
             q = rng.choice([1000, 1000, 1])
             m = rng.choice([2, 3, 3, 4, 5, 8, rng.randint(2, 40)])
+            numeric = rng.random() < 0.1
             t = T0 + MS * rng.randint(0, 10**3)
             l, tz = [], []
             for _ in range(m):
                 d = q * rng.choice([0, 0, 1, rng.randint(0, 10), rng.randint(0, 3 * 10**6 // q), 10**6 // q])
-                l.append([rng.choice([None, rng.randint(0, 99)]), t, d, lab(rng.choice("AAB"))])
+                # (labels -1 and -2: different data whose hash() coincides in CPython)
+                l.append([rng.choice([None, rng.randint(0, 99)]), t, d, lab(rng.choice([-1, -2, -1]) if numeric else rng.choice("AAB"))])
                 tz.append(rng.choice([0, 0, 60, -330]))
                 g = rng.choice([0, q, ptus - q, ptus, ptus + q, ptus // MS * MS, ptus // MS * MS + MS,
                                 rng.randint(0, 2 * ptus + 2), rng.randint(0, 10**7)])
